@@ -15,6 +15,7 @@
 EXTENDS Naturals, Integers, Sequences, FiniteSets
 
 Put(f, k, v) == [x \in DOMAIN f \cup {k} |-> IF x = k THEN v ELSE f[x]]
+Del(f, K) == [x \in DOMAIN f \ K |-> f[x]]
 EmptyFn == [x \in {} |-> 0]
 
 CInit ==
@@ -23,6 +24,9 @@ CInit ==
     emitted |-> {},          \* <<server, event id, k>>: the server announced it would emit k
     sentAt |-> EmptyFn,      \* k -> time the EmitEvent carrying k left the owner's client
     subAt |-> EmptyFn,       \* subscriber task -> time its subscription was acknowledged
+    wantAll |-> {},          \* <<owner client, service token>>: the broker asked this owner for all events
+    wantEv |-> {},           \* <<owner client, service token, event id>>: the broker asked for this event
+    mustSend |-> EmptyFn,    \* k -> <<owner client, service token, event id>>: emitted while asked for, not yet seen leaving
     lastEv |-> EmptyFn,      \* <<task, event id>> -> last k seen
     lastAny |-> EmptyFn,     \* task -> last k seen of any event id
     nextItem |-> EmptyFn,    \* channel cookie -> next item number the consumer must see
@@ -134,7 +138,13 @@ ViewCheck(S, r) ==
 OnFact(S, r) ==
   CASE r.what = "producer" -> [S EXCEPT !.chanOf = Put(@, r.d.chan, r.d.cookie)]
     [] r.what = "served" -> [S EXCEPT !.served = Put(@, r.d.t, [n |-> r.d.n, how |-> r.d.how])]
-    [] r.what = "emit" -> [S EXCEPT !.emitted = @ \cup {<<r.d.srv, r.d.ev, r.d.k>>}]
+    [] r.what = "emit" ->
+         \* C04 (owner side): an event emitted while the broker has asked this owner for it (and keeps
+         \* asking) must leave the owner's client
+         LET S1 == [S EXCEPT !.emitted = @ \cup {<<r.d.srv, r.d.ev, r.d.k>>}] IN
+         IF "svcTok" \in DOMAIN r.d /\ (<<r.d.cl, r.d.svcTok>> \in S.wantAll \/ <<r.d.cl, r.d.svcTok, r.d.ev>> \in S.wantEv)
+           THEN [S1 EXCEPT !.mustSend = Put(@, r.d.k, <<r.d.cl, r.d.svcTok, r.d.ev>>)]
+           ELSE S1
     [] r.what = "event" ->
          LET key == <<r.task, r.d.ev>>
              last == IF key \in DOMAIN S.lastEv THEN S.lastEv[key] ELSE 0 IN
@@ -169,7 +179,17 @@ CStep(S0, r) ==
     [] r.t = "tap" ->
          \* C12: a payload delivered to a client is in the encoding epoch of its negotiated version
          IF r.dir = "rx" /\ ~r.epochOk THEN Bad(S, "C12", "a payload with encodings newer than the recipient's version was delivered: " \o r.m.k)
-         ELSE IF r.dir = "tx" /\ r.m.k = "EmitEvent" /\ r.pv >= 0 THEN [S EXCEPT !.sentAt = Put(@, r.pv, S.now)]
+         ELSE IF r.dir = "tx" /\ r.m.k = "EmitEvent" /\ r.pv >= 0 THEN [S EXCEPT !.sentAt = Put(@, r.pv, S.now), !.mustSend = Del(@, {r.pv})]
+         \* what the broker asks the owner of a service to produce (requests without a serial)
+         ELSE IF r.dir = "rx" /\ r.m.k = "SubscribeAllEvents" /\ ~r.m.has THEN [S EXCEPT !.wantAll = @ \cup {<<r.cl, r.m.svc>>}]
+         ELSE IF r.dir = "rx" /\ r.m.k = "SubscribeEvent" /\ ~r.m.has THEN [S EXCEPT !.wantEv = @ \cup {<<r.cl, r.m.svc, r.m.ev>>}]
+         \* a withdrawn request cancels the obligation for what has not left yet
+         ELSE IF r.dir = "rx" /\ r.m.k = "UnsubscribeAllEvents" /\ ~r.m.has THEN
+                [S EXCEPT !.wantAll = @ \ {<<r.cl, r.m.svc>>},
+                          !.mustSend = Del(@, {k \in DOMAIN @ : @[k][1] = r.cl /\ @[k][2] = r.m.svc /\ <<r.cl, r.m.svc, @[k][3]>> \notin S.wantEv})]
+         ELSE IF r.dir = "rx" /\ r.m.k = "UnsubscribeEvent" THEN
+                [S EXCEPT !.wantEv = @ \ {<<r.cl, r.m.svc, r.m.ev>>},
+                          !.mustSend = Del(@, {k \in DOMAIN @ : @[k] = <<r.cl, r.m.svc, r.m.ev>> /\ <<r.cl, r.m.svc>> \notin S.wantAll})]
          ELSE S
     [] r.t = "fault" -> [S EXCEPT !.faulty = @ \cup {r.cl}]
     [] r.t = "cause" -> [S EXCEPT !.cause = r.cause]
@@ -179,6 +199,8 @@ CStep(S0, r) ==
          \* (pending operations resolve, the broker cleans the lost connection up); otherwise C06's
          ELSE IF r.unfinished THEN Bad(S, IF S.cause # "" THEN "C15" ELSE "C06",
                 "the system is quiescent but an application task is still waiting (lost wake-up or deadlock)")
+         ELSE IF S.cause = "" /\ S.faulty = {} /\ DOMAIN S.mustSend # {} THEN
+                Bad(S, "C04", "an event emitted while the broker was asking the owner for it never left the owner's client")
          ELSE [S EXCEPT !.quiescent = TRUE]
     [] r.t = "task" ->
          IF r.st = "panic" THEN Bad(S, PanicProp(r.msg), "an application task panicked: " \o r.msg)
